@@ -165,6 +165,30 @@ def tripletIdsGo (g : Graph α) (v : Nat) (d : Direction) : List Nat → Except 
 def incidentTripletIds (g : Graph α) (v : Nat) (d : Direction) : Except NetErr (List (Nat × Nat × Nat)) :=
   tripletIdsGo g v d (g.incidentEdges v d)
 
+/-- the `map(..).collect::<Result<Vec<_>,_>>()` of `incident_triplet_attributes`: per triplet the first
+vertex, the edge, the third vertex, in that order; first error wins -/
+def tripletAttrsGo (g : Graph α) : List (Nat × Nat × Nat) → Except NetErr (List (Vertex α × Edge α × Vertex α))
+  | [] => .ok []
+  | (a, e, b) :: r =>
+    match g.getVertex a with
+    | .error x => .error x
+    | .ok va =>
+      match g.getEdge e with
+      | .error x => .error x
+      | .ok ed =>
+        match g.getVertex b with
+        | .error x => .error x
+        | .ok vb =>
+          match tripletAttrsGo g r with
+          | .error x => .error x
+          | .ok l => .ok ((va, ed, vb) :: l)
+
+def incidentTripletAttributes (g : Graph α) (v : Nat) (d : Direction) :
+    Except NetErr (List (Vertex α × Edge α × Vertex α)) :=
+  match g.incidentTripletIds v d with
+  | .error x => .error x
+  | .ok l => tripletAttrsGo g l
+
 end Graph
 
 /-! ### `EdgeLoader::try_from`: the row callback, folded over the decoded rows -/
@@ -214,10 +238,13 @@ inductive Row (ρ : Type) where
   deriving Repr, Inhabited
 
 structure CsvFile (ρ : Type) where
-  /-- the file can be opened -/
+  /-- the file can be opened and read to its end (a missing file cannot; neither can a gzip stream that
+  was cut short: `line_count` ends with the read error, the csv reader with an io error) -/
   present : Bool
   /-- what `fs_utils::line_count` reports: text lines including the header -/
   lines : Nat
+  /-- the csv reader finds a header row (false: the file has no content at all) -/
+  hasHeader : Bool
   /-- the records after the header as the csv reader yields them; `bad` = does not decode -/
   rows : List (Row ρ)
   deriving Repr, Inhabited
@@ -240,9 +267,12 @@ def scanCount (f : CsvFile ρ) : Except LoadErr Nat :=
   else if f.lines < 1 then .error .dataset
   else .ok (f.lines - 1)
 
-/-- `read_utils::from_csv` -/
+/-- `read_utils::from_csv` with a header row expected: the file cannot be opened, the header row
+cannot be read or is absent, or a record does not decode — all `csv::Error` -/
 def readCsv (f : CsvFile ρ) : Except LoadErr (List ρ) :=
-  if f.present = false then .error .csv else decodeRows f.rows
+  if f.present = false then .error .csv
+  else if f.hasHeader = false then .error .csv
+  else decodeRows f.rows
 
 def countOrScan (declared : Option Nat) (f : CsvFile ρ) : Except LoadErr Nat :=
   match declared with
@@ -285,6 +315,21 @@ def graphFromFiles {α : Type} (ef : CsvFile (Edge α)) (vf : CsvFile (Vertex α
             -- every edge must join two vertex ROWS (the tables may be larger than the vertex file)
             else if endpointsWithin es vs.length = false then .error .dataset
             else .ok (buildGraph es vs nV)
+
+/-- `read_utils::read_raw_file` (and `from_csv` for a table with a header): a file that cannot be read
+to its end, or a line that does not decode, fails the whole read; otherwise the rows in file order -/
+def readTable {ρ : Type} (readable : Bool) (rows : List (Row ρ)) : Except LoadErr (List ρ) :=
+  if readable = false then .error .io
+  else
+    match decodeRows rows with
+    | .error _ => .error .io
+    | .ok l => .ok l
+
+/-- how often the row callback ran: once per row decoded, up to the first row that does not decode -/
+def callbackCount {ρ : Type} : List (Row ρ) → Nat
+  | [] => 0
+  | .bad :: _ => 0
+  | .ok _ :: r => callbackCount r + 1
 
 /-- a per-edge table (speeds, grades, headings, road classes): row `i` of the file belongs to edge
 `i` (`read_raw_file` enumerates lines from zero; `from_csv` keeps row order) -/
